@@ -2,5 +2,5 @@
 EXTENDS MC_Fft, Json, IOUtils, CSV
 Q_Shapes == {<<4>>, <<3>>, <<5>>, <<2, 3>>, <<2, 2, 2>>, <<3, 4>>}
 T_Shapes == {<<3>>, <<2, 3>>}
-Emit == done => CSVWrite("%1$s", <<ToJson([c |-> c, x |-> InputInts(c.sh, c.kind), out |-> out])>>, IOEnv.GEN_OUT)
+Emit == call.name # "none" => CSVWrite("%1$s", <<ToJson([c |-> call, x |-> InputInts(c.sh, c.kind), out |-> out])>>, IOEnv.GEN_OUT)
 =============================================================================
